@@ -183,8 +183,12 @@ def job(args):
     else:
         r = run_compass(texts, h, w)
     outs, raised = [], 0
-    for o in r[2]:          # every crash is a violation: a bounded sample per batch is judged (all of them are counted)
-        if o["outcome"] == "raised":
+    for o in r[2]:
+        # every crash / failed round trip is a violation: a bounded sample per batch goes to the judge (all are counted);
+        # outcomes that look fine are all judged.  (The judge's report is quadratic in the number of bad outcomes.)
+        suspicious = o["outcome"] == "raised" or (o["outcome"] == "problem" and
+                                                  (not o["dims_ok"] or o["reencode"] not in ("ok", "skipped") or not o["same"]))
+        if suspicious:
             raised += 1
             if raised > 25:
                 continue
